@@ -1,1 +1,7 @@
+pub mod config;
+pub mod flow;
+pub mod scope;
 pub mod soup;
+pub mod types;
+pub mod valid;
+pub mod workspace;
